@@ -8,7 +8,7 @@
   unsubscribe_all / publish (switch `dedup`: `true` = the `seen_connections`
   de-duplication of the tree as pinned, `false` = after the proposed fix) and the matcher
   `pattern_matches`; `Spec`: the flat set of subscriptions held, one delivery per matching
-  subscription, the meaning of `* ? \x`.  All history theorems quantify over every list of
+  subscription, the meaning of `* ? [...] \x` (Redis's glob).  All history theorems quantify over every list of
   operations from the empty manager.
   Tie to the code: translator/pubsub_consts.py regenerates `Gen.pubsubDedup` (is the
   de-duplication still in `publish`?) and `Gen.pubsubGlobArms` (the arms of the matcher's
@@ -304,20 +304,39 @@ theorem stream_dedup_fails :
 
 /-! ### (6) The glob matcher -/
 
-/-- `pattern_matches` (the star-backtracking loop of src/pubsub.rs, all patterns, all texts,
-    any number of `*`) computes the declarative meaning of the pattern. -/
+/-- `pattern_matches` (pub/sub calls the server's one glob matcher, the star-backtracking loop of
+    src/storage/engine.rs: all patterns, all texts, any number of `*`, classes included) computes
+    the declarative meaning of the pattern. -/
 theorem glob_correct (p s : Bytes) : globBytes p s = Spec.glob p s := globBytes_eq_spec p s
 
-/-- …which is the relation generated by: `*` any run of bytes, `?` one byte, `\x` the byte `x`,
-    a final `\` and every other byte itself. -/
+/-- …which is the relation generated by: `*` any run of bytes; every other element exactly one
+    byte it accepts — `?` any byte, `\x` the byte `x`, a class `[…]`/`[^…]` a byte that is /
+    is not one of its members (Redis's rules for reading a class: `Spec.classParse`), a final
+    `\` and every other byte itself. -/
 theorem glob_correct_rel (p s : Bytes) : globBytes p s = true ↔ Spec.Glob p s := by
   rw [globBytes_eq_spec]; exact glob_iff_Glob p s
 
-/-- Tie to the code: the arms of `match pattern[p_idx]` in `pattern_matches` are exactly the four
-    that `gstep` transliterates (`?`, `*`, `\` followed by another byte, anything else); stops
-    checking when the matcher's grammar changes (e.g. `[...]` classes are added). -/
+/-- The code's walk over a class is the spec's reading of it: matched iff `c` is one of the
+    members, and it stops where the class ends. -/
+theorem class_walk_correct (c : Nat) (q : Bytes) :
+    classGo c q false = ((Spec.classParse q).1.any (·.has c), (Spec.classParse q).2) := by
+  rw [classGo_eq c q.length q false (Nat.le_refl _)]; simp
+
+/-- Tie to the code: `pubsub::pattern_matches` is exactly one call of the engine matcher, the arms
+    of that matcher's `match` are the five that `gstep` transliterates and the `if`s of its `[`
+    arm are those of `classGo`, in order; stops checking when any of this changes. -/
 theorem tree_glob_grammar :
-    Gen.pubsubGlobArms = ["b'?'", "b'*'", "b'\\\\' if p_idx + 1 < pattern.len()", "_"] := by decide
+    Gen.pubsubMatcherIsEngine = true ∧
+    Gen.pubsubGlobArms = ["b'?'", "b'*'", "b'['", "b'\\\\' if p_idx + 1 < pattern_chars.len()", "_"] ∧
+    Gen.pubsubClassConds = ["negate", "pattern_chars[i] == b'\\\\' && i + 1 < pattern_chars.len()", "pattern_chars[i] == c",
+      "pattern_chars[i] == b']'", "i + 2 < pattern_chars.len() && pattern_chars[i + 1] == b'-'", "c >= lo && c <= hi",
+      "pattern_chars[i] == c", "matched != negate"] := by decide
+
+/-- WITNESS for the matcher pub/sub had before (only `* ? \x`): a class was three literal bytes, so
+    `PSUBSCRIBE h[ae]llo` received nothing published on `hello`; the prescribed meaning delivers it. -/
+theorem class_pattern_matches :
+    Spec.glob [104, 91, 97, 101, 93, 108, 108, 111] [104, 101, 108, 108, 111] = true ∧
+    Spec.glob [104, 91, 97, 101, 93, 108, 108, 111] [104, 91, 97, 101, 93, 108, 108, 111] = false := by decide
 
 /-- The loop's iteration budget in the model is never the reason for an answer. -/
 theorem glob_fuel_irrelevant (p s : Bytes) (fuel : Nat) (h : globFuel p s ≤ fuel) :
@@ -348,6 +367,17 @@ example : ∀ p ∈ Spec.heldBy (Spec.after [] [.subscribe 1 .chan [[97]], .subs
 example : ∀ op ∈ [Op.subscribe 2 .chan [[97]], Op.publish 2 [97] [1]], op.subscribesAs 1 = false := by decide
 -- the matcher on a pattern with two stars, an escape and a `?`:
 example : globBytes [42, 97, 42, 92, 42, 63] [120, 97, 121, 97, 42, 122] = true := by decide
-example : Spec.Glob [110, 42] [110, 101] := .lit 110 (by decide) (by decide) (by decide) (.starEat 101 (.starSkip .nil))
+example : Spec.Glob [110, 42] [110, 101] :=
+  .tok (t := .lit 110) (p' := [42]) 110 rfl rfl (.starEat 101 (p' := []) rfl (.starSkip (p' := []) rfl (.done rfl)))
+-- Redis's rules for classes, one by one ( [ = 91, ] = 93, ^ = 94, - = 45, \ = 92 ):
+example : Spec.glob [91, 92, 93, 93] [93] = true := by decide                       -- `[\]]`: the member `]`
+example : Spec.glob [91, 99, 45, 97, 93] [98] = true := by decide                   -- `[c-a]` = `[a-c]`
+example : Spec.glob [91, 97, 45, 93, 120, 93] [94] = true ∧ Spec.glob [91, 97, 45, 93, 120, 93] [120] = true := by decide  -- `[a-]x]`: `a-]` is a range
+example : Spec.glob [91, 97, 98] [98] = true ∧ Spec.glob [91, 97, 98] [98, 98] = false := by decide   -- `[ab` runs to the end
+example : Spec.glob [91, 94] [0] = true ∧ Spec.glob [91, 94] [] = false := by decide                  -- `[^` alone: any one byte
+example : Spec.glob [91] [91] = false ∧ Spec.glob [91, 93] [93] = false ∧ Spec.glob [91, 93] [] = false := by decide  -- `[`, `[]`: nothing
+example : Spec.glob [91, 94, 120, 93, 63] [97, 98] = true ∧ Spec.glob [91, 94, 120, 93, 63] [120, 98] = false := by decide  -- `[^x]?`
+example : Spec.glob [91, 97, 92, 45, 99, 93] [45] = true ∧ Spec.glob [91, 97, 92, 45, 99, 93] [98] = false := by decide      -- `[a\-c]`: three members
+example : globBytes [42, 91, 97, 45, 99, 93, 42, 91, 94, 120, 93] [122, 98, 122, 121] = true := by decide
 
 end Ferrous.C14
